@@ -97,6 +97,22 @@ structure CycState where
   buf2 : List Cmd := []             -- commands popped in the second pass
 deriving Repr, Inhabited
 
+/-- History variables (ghost state): written by `sendCmd`, `finishCycle` and `exitThread`, never
+    read by any operation, never printed by the driver.  They exist so that whole-program theorems
+    can speak about "every command a channel ever accepted" and "every record ever reported".
+    All lists are newest-first. -/
+structure Ghost where
+  accepted : List Cmd := []      -- taken by a thread's channel: pushed into the ring or parked in the overflow list
+  refused : List Cmd := []       -- best-effort sends dropped because the ring was full
+  blocked : List Cmd := []       -- model artefact: first use of the channel while the drain holds the registry lock
+                                 -- (the real thread waits for the lock; generated programs never do this)
+  orphaned : List Cmd := []      -- sends of a thread whose receiver is no longer registered
+  consumed : List Cmd := []      -- handed to the processing loops of `handle_commands` (a reporter is installed)
+  discarded : List Cmd := []     -- drained while no reporter was installed (`handle_commands` returns early)
+  lostAtExit : List Cmd := []    -- parked values that did not fit into the ring when `Sender::drop` ran (finding D3)
+  reported : List Record := []   -- every record handed to `Reporter::report`, newest report first
+deriving Repr, Inhabited
+
 structure Sys where
   clock : Nat
   nextCollect : Nat
@@ -109,7 +125,11 @@ structure Sys where
   cyc : Option CycState
   adapters : List (String × Adapter) := []
   deferred : List Nat := []         -- collect ids whose commit was first seen in a second drain pass
+  g : Ghost := {}                   -- history variables (ghost)
 deriving Repr, Inhabited
+
+/-- replace the history variables (nothing else) -/
+def Sys.withG (s : Sys) (g : Ghost) : Sys := { s with g := g }
 
 def Sys.init : Sys :=
   { clock := 0, nextCollect := 0, reporterReady := false,
@@ -256,18 +276,19 @@ def Sys.setRing (s : Sys) (t : Nat) (r : Ring Cmd) : Sys :=
 /-- `send_command` (`forced = false`) / `force_send_command` (`forced = true`) -/
 def Sys.sendCmd (s : Sys) (t : Nat) (cmd : Cmd) (forced : Bool) : Sys :=
   match s.register t with
-  | none => s
+  | none => s.withG { s.g with blocked := cmd :: s.g.blocked }
   | some s =>
     match s.ringOf t with
-    | none => s
+    | none => s.withG { s.g with orphaned := cmd :: s.g.orphaned }
     | some r =>
       let th := s.th t
       if forced then
         let (r, pend) := r.forceSend th.pending cmd
-        (s.setRing t r).setTh t { th with pending := pend }
+        ((s.setRing t r).setTh t { th with pending := pend }).withG { s.g with accepted := cmd :: s.g.accepted }
       else
-        let (r, pend, _) := r.send th.pending cmd
-        (s.setRing t r).setTh t { th with pending := pend }
+        let (r, pend, ok) := r.send th.pending cmd
+        ((s.setRing t r).setTh t { th with pending := pend }).withG
+          (if ok then { s.g with accepted := cmd :: s.g.accepted } else { s.g with refused := cmd :: s.g.refused })
 
 /-- `GlobalCollect::submit_spans` -/
 def Sys.submitSpans (s : Sys) (t : Nat) (spans : SpanSet) (token : Token) : Sys :=
@@ -371,8 +392,11 @@ def Cmd.isCommit : Cmd → Bool
 def Sys.finishCycle (s : Sys) (kept : List (Nat × Ring Cmd)) (buf buf2 : List Cmd) : Sys × Option (List Record) :=
   let batch := s.deferred.map Cmd.commit ++ buf ++ buf2.filter (fun c => !c.isCommit)
   let (coll, rep) := cycleProcess id s.coll batch
-  ({ s with coll := coll, rxs := kept, cyc := none,
-            deferred := if s.coll.hasReporter then commitsOf buf2 else [] }, rep)
+  (({ s with coll := coll, rxs := kept, cyc := none,
+             deferred := if s.coll.hasReporter then commitsOf buf2 else [] } : Sys).withG
+     (if s.coll.hasReporter then
+        { s.g with consumed := batch ++ s.g.consumed, reported := rep.getD [] ++ s.g.reported }
+      else { s.g with discarded := batch ++ buf2.filter Cmd.isCommit ++ s.g.discarded }), rep)
 
 /-- the whole drain at once (no operation falls inside it) -/
 def drainAll : List (Nat × Ring Cmd) → List (Nat × Ring Cmd) × List Cmd
@@ -469,9 +493,9 @@ def Sys.exitThread (s : Sys) (t : Nat) : Sys :=
   let s := s.setTh t { th with guards := [], alive := false, pending := [] }
   if th.registered then
     match s.ringOf t with
-    | some r => s.setRing t (r.senderDrop th.pending)
-    | none => s
-  else s
+    | some r => (s.setRing t (r.senderDrop th.pending)).withG { s.g with lostAtExit := r.senderDropLost th.pending ++ s.g.lostAtExit }
+    | none => s.withG { s.g with lostAtExit := th.pending ++ s.g.lostAtExit }
+  else s.withG { s.g with lostAtExit := th.pending ++ s.g.lostAtExit }   -- (empty: the channel was never used)
 
 def Sys.spamOnce (s : Sys) (t : Nat) : Sys :=
   if !s.reporterReady then s else
